@@ -92,6 +92,22 @@ func cmdConc(args []string) {
 				}
 				return digest(dumpTree(e))
 			}},
+			// the same query under several other default fields (goroutines then differ in their option values)
+			concCall{fmt.Sprintf("parsedf2:%d", i), func() string {
+				e, err := lucene.Parse(q, lucene.WithDefaultField("title"))
+				if err != nil {
+					return "err"
+				}
+				return digest(dumpTree(e))
+			}},
+			concCall{fmt.Sprintf("sqldf:%d", i), func() string {
+				s, err := lucene.ToPostgres(q, lucene.WithDefaultField("body"))
+				return digest(s, err == nil)
+			}},
+			concCall{fmt.Sprintf("sqlpdf:%d", i), func() string {
+				s, ps, err := lucene.ToParameterizedPostgres(q, lucene.WithDefaultField("my field"))
+				return digest(s, fmt.Sprint(ps...), err == nil)
+			}},
 			concCall{fmt.Sprintf("sql:%d", i), func() string { s, err := lucene.ToPostgres(q); return digest(s, err == nil) }},
 			concCall{fmt.Sprintf("sqlp:%d", i), func() string {
 				s, ps, err := lucene.ToParameterizedPostgres(q)
